@@ -93,9 +93,23 @@ _Bool vf_atomic_compare_exchange_weak_u64(unsigned long *p, unsigned long *expec
 
 /* ---- scheduling interface S (declared-only in the driver): arbitrary implementation under this contract ---- */
 int Sched_futex_wake_all(uint32_t *f) { if (f == g_w) { g_debt = 0; g_wakes++; } return nondet_u32(); }
-int Sched_futex_wait(uint32_t *f, unsigned int val, struct timespec *timeout) { if (f == g_w) env_step(); return nondet_u32(); }
-void Sched_usleep(unsigned int us) { }
 int vf_errno_storage;
+unsigned g_sleeps;
+int Sched_futex_wait(uint32_t *f, unsigned int val, struct timespec *timeout) {
+  if (f == g_w) {
+    env_step();
+    /* C02 waiter side: a thread only ever sleeps on a word that carries the waiter mark, so that the thread which later
+     * swaps the word out sees the mark and owes the wake (kernel compare-and-sleep on the whole 32-bit word is the stub's contract) */
+    __CPROVER_assert(val > 0xFFFFu, "K5 C02.waiter sleeps only on a word with the waiter mark set");
+    if (*f == val) { g_sleeps++; env_step(); }
+  }
+  /* errno after the call: ETIMEDOUT(110) only when a timeout was given; EAGAIN(11)/EINTR(4)/0 otherwise */
+  int e = nondet_u32();
+  __CPROVER_assume(e == 0 || e == 4 || e == 11 || (e == 110 && timeout != (struct timespec *)0));
+  vf_errno_storage = e;
+  return e == 0 ? 0 : -1;
+}
+void Sched_usleep(unsigned int us) { }
 int *vf_errno_location(void) { return &vf_errno_storage; }
 
 /* ---- the user callback: runs with exclusive access to its element ---------------------------------------- */
@@ -124,8 +138,10 @@ void Cb_op_call(struct Cb *self, uint64_t *value) {
 #endif
 #ifdef VF_ENFORCE_Q_SlotFutex_wait_until_reach_expected_version__1
 #define RQ_WAIT PE
+#define OBJ_WAIT(p, n) __CPROVER_is_fresh(p, n)
 #else
 #define RQ_WAIT EQ
+#define OBJ_WAIT(p, n) __CPROVER_r_ok(p, n)
 #endif
 
 /* ---- K1 ticket arithmetic ---------------------------------------------------------------------------------- */
@@ -175,7 +191,7 @@ __CPROVER_ensures(!g_debt)
 #define DEAL_CONTRACT(EXPR_E) \
 __CPROVER_requires(QSHAPE(q) && __CPROVER_is_fresh(cb, 1)) \
 __CPROVER_requires(RQ_DEAL(g_w, &q->_slots._slots[index & q->_slot_mask].futex._futex._value) && g_E == (EXPR_E) && g_mine && !g_published && !g_debt && g_cb_runs == 0) \
-__CPROVER_assigns(*g_w, g_published, g_debt, g_wakes, g_cb_runs, vf_errno_storage) \
+__CPROVER_assigns(*g_w, g_published, g_debt, g_wakes, g_cb_runs, vf_errno_storage, g_sleeps) \
 __CPROVER_ensures(g_cb_runs == 1) \
 __CPROVER_ensures(g_published && !g_debt)
 
@@ -187,9 +203,17 @@ DEAL_CONTRACT((unsigned short)(((index >> g_bits) << 1) + 1));
 /* wait_until_reach_expected_version<true>(expected, timeout=nullptr, order): returns only with the version at expected.
  * (contract used when verifying deal; discharged on the real wait loop in job C02.wait) */
 void Q_SlotFutex_wait_until_reach_expected_version__1(SF_t *f, unsigned short expected_version, struct timespec *timeout, int order)
-__CPROVER_requires(__CPROVER_r_ok(f, sizeof(*f)) && RQ_WAIT(g_w, &f->_futex._value) && timeout == (struct timespec *)0 && expected_version == g_E && g_mine && !g_published)
+__CPROVER_requires(OBJ_WAIT(f, sizeof(*f)) && RQ_WAIT(g_w, &f->_futex._value) && timeout == (struct timespec *)0 && expected_version == g_E && g_mine && !g_published)
 __CPROVER_requires(ORDER_AT_LEAST_ACQUIRE(order))
-__CPROVER_assigns(*g_w, vf_errno_storage)
+__CPROVER_assigns(*g_w, vf_errno_storage, g_sleeps)
 __CPROVER_ensures(VER(*g_w) == g_E)
 ;
+/* loop contract of the futex wait loop (block_until_reach_expected_version_slow), timeout == nullptr instance:
+ * partial correctness only -- the loop is left only with the observed word showing the expected version */
+//@loop Q_SlotFutex_block_until_reach_expected_version_slow 1
+//@  __CPROVER_assigns(current_version_and_waiters, version, *g_w, vf_errno_storage, g_sleeps, timeout, modified_timeout, __t1)
+//@  __CPROVER_loop_invariant(timeout == (struct timespec *)0)
+//@  __CPROVER_loop_invariant(version == (unsigned short)current_version_and_waiters)
+//@  __CPROVER_loop_invariant(VER(current_version_and_waiters) != g_E || VER(*g_w) == g_E)
+//@end
 #endif
